@@ -154,7 +154,18 @@ def _flatten(shape, prefix, files):
 
 
 def gen_tree(rng):
-    """one tree: 1-3 roots, <= MAX_FILES files in total."""
+    """one tree: 1-3 roots, <= MAX_FILES files in total (bounded retries, then a fixed small tree)."""
+    for _ in range(20):
+        tree = _gen_tree(rng)
+        try:
+            check_domain(tree)
+        except AssertionError:
+            continue
+        return tree
+    return {'roots': [{'pa/__init__.py': 'NAME = "pa"\n', 'pa/m.py': 'NAME = "pa.m"\n'}, {'pa.py': 'NAME = "pa"\n'}]}
+
+
+def _gen_tree(rng):
     nroots = rng.choice((1, 2, 2, 2, 3, 3))
     deep = rng.random() < 0.5
     budget = MAX_FILES - 2
@@ -177,9 +188,7 @@ def gen_tree(rng):
         files = {}
         _flatten(s, [], files)
         roots.append(files)
-    tree = {'roots': roots}
-    check_domain(tree)
-    return tree
+    return {'roots': roots}
 
 
 def check_domain(tree):
@@ -197,7 +206,7 @@ def check_domain(tree):
         for d in dirs:
             assert d + '/__init__.py' in files, ('namespace dir', d)
             assert d + '.py' not in files, ('module next to package', d)
-    assert 0 < total <= MAX_FILES + 2, total
+    assert 0 < total <= MAX_FILES, total
 
 
 def orders(tree):
